@@ -84,7 +84,7 @@ def handler : Driver.Handler := fun c i => do
   let hasPq := oks.any fun (k, _) => isParquet k
   let tags := ["sql", Driver.SQL.topShape cs.plan, if errs.isEmpty then "sql:answered" else "sql:err"]
               ++ (if (Driver.getNat c "files").toOption.getD 1 ≥ 2 then ["files:multi"] else ["files:one"])
-              ++ [s!"rg:{(Driver.getNat c "rg").toOption.getD 0}"] ++ variants ++ pathTags ++ specTag ++ cs.tags ++ diffTags
+              ++ [s!"rg:{(Driver.getNat c "rg").toOption.getD 0}"] ++ variants ++ pathTags ++ (if pathTags.any (·.endsWith "MorselAggregate") then ["path:morsel_taken"] else []) ++ specTag ++ cs.tags ++ diffTags
               ++ (if nonEmpty then [] else ["empty_result"])
   pure { model := Json.null, k := ofail.isNone, oracle := ofail, nt := oks.length ≥ 2 && hasPq && nonEmpty, tags := tags, attr := attr }
 
